@@ -313,6 +313,14 @@ func VerifC07Dup() {
 	s2 := &dst.ImportSpec{Name: &dst.Ident{Name: "q"}, Path: &dst.BasicLit{Kind: token.STRING, Value: strconv.Quote(p)}}
 	id := &dst.Ident{Name: "N", Path: p}
 	file := vfFileWith([]dst.Spec{s1, s2}, []*dst.Ident{id})
+	if vfChoice("twoDecls", 2) == 1 {
+		// the two specs stand in two import declarations
+		gd := file.Decls[0].(*dst.GenDecl)
+		gd.Specs, gd.Lparen, gd.Rparen = []dst.Spec{s1}, false, false
+		gd2 := &dst.GenDecl{Tok: token.IMPORT, Specs: []dst.Spec{s2}}
+		gd2.Decs.Before, gd2.Decs.After = dst.EmptyLine, dst.EmptyLine
+		file.Decls = append([]dst.Decl{gd, gd2}, file.Decls[1:]...)
+	}
 	calls := 0
 	res := NewRestorerWithImports(vfLocal, vfResolver{names: names, failAt: -1, calls: &calls})
 	af, err := res.RestoreFile(file)
@@ -471,6 +479,50 @@ func VerifC08ExternalTest() {
 	vfAssert(rerr == nil, "restore-ok")
 	vfAssert(len(file.Decls) == len(before.Decls), "decls-unchanged")
 	vfAssert(vfDeepEqual(file.Decls[0], before.Decls[0]), "import-block-unchanged")
+}
+
+// VerifC07ShippedResolvers: the package-name resolvers shipped with dst (guess, simple) against their
+// documentation - a name given in the map wins for every path (with or without slash), otherwise guess
+// answers the last path element and simple answers ErrPackageNotFound - and end to end: a reference to
+// a slash-less path whose mapped name (symbolic) differs from the path is written as name.N under a plain
+// import of the path.
+func VerifC07ShippedResolvers() {
+	n1, n2 := vfBytes("name1", 1, "pqr"), vfBytes("name2", 1, "pqr")
+	m := map[string]string{"mylib": n1, "x.y/b": n2}
+	paths := []string{"mylib", "x.y/b", "c/d", "e", "x.y/go-f"}
+	want := []string{n1, n2, "d", "e", "go-f"}
+	k := vfChoice("path", len(paths))
+	g, gerr := guess.WithMap(m).ResolvePackage(paths[k])
+	vfAssert(gerr == nil && g == want[k], "guess-resolver-map-first-then-last-element")
+	sn, serr := simple.New(m).ResolvePackage(paths[k])
+	if k < 2 {
+		vfAssert(serr == nil && sn == want[k], "simple-resolver-answers-from-the-map")
+	} else {
+		vfAssert(serr != nil, "simple-resolver-reports-unknown-packages")
+	}
+	if k >= 2 {
+		return
+	}
+	var res resolver.RestorerResolver = guess.WithMap(m)
+	if vfChoice("simple", 2) == 1 {
+		res = simple.New(m)
+	}
+	id := &dst.Ident{Name: "N", Path: paths[k]}
+	file := vfFileWith(nil, []*dst.Ident{id})
+	r := NewRestorerWithImports(vfLocal, res)
+	af, err := r.RestoreFile(file)
+	vfAssert(err == nil, "restore-ok")
+	if err != nil {
+		return
+	}
+	sel, isSel := r.Ast.Nodes[id].(*ast.SelectorExpr)
+	vfAssert(isSel, "reference-is-qualified")
+	if isSel {
+		x, _ := sel.X.(*ast.Ident)
+		vfAssert(x != nil && x.Name == want[k], "selector-uses-the-mapped-package-name")
+	}
+	imps := vfRestoredImports(af)
+	vfAssert(len(imps) == 1 && imps[0].path == paths[k] && !imps[0].has, "plain-import-of-the-path")
 }
 
 // ---- C17: resolver failure during restore ---------------------------------------------------------
